@@ -113,6 +113,18 @@ func runC08Interleave(seed int64, n int) {
 				if c08InterleaveCase(dir, pool, ci, &dbNo, c) {
 					taken++
 					informative[kind]++
+					// now and then the same pre-state also gets the deletion of all keys in one call
+					// as the operation under test (a multi-key operation is one atomic step as well)
+					if taken%4 == 0 {
+						dk := c
+						dk.Target = &hx.Step{Ops: []*hx.Op{hx.KDelete("k1", "k2", "k3")}}
+						dk.Kind = "KDelete-all-keys"
+						dk.Rest = nil
+						ci++
+						if c08InterleaveCase(dir, pool, ci, &dbNo, dk) {
+							informative[dk.Kind]++
+						}
+					}
 					break
 				}
 				count("skipped_no_effect")
